@@ -722,11 +722,11 @@ def shape_state(case):
     st = mkflow(case["recipe"]).get_state()
     d = st
     i, j = case["path"]
-    keys = sorted(d.keys())
+    keys = sorted(d.keys(), key=repr)
     k = keys[i % len(keys)]
     if isinstance(d[k], dict) and d[k] and j % 3:
         d = d[k]
-        keys = sorted(d.keys())
+        keys = sorted(d.keys(), key=repr)
         k = keys[j % len(keys)]
     if case["op"] == "del":
         del d[k]
